@@ -764,13 +764,14 @@ impl Router {
                                 continue;
                             }
 
-                            // Remove connections from all groups
+                            // Leave the group of this shared subscription (and no other)
                             // discard empty group ( group with no client )
-                            // note: can we do this in better way?
-                            self.shared_subscriptions.retain(|_, group| {
+                            if let Some(group) = self.shared_subscriptions.get_mut(filter) {
                                 group.remove_client(&client_id);
-                                !group.is_empty()
-                            });
+                                if group.is_empty() {
+                                    self.shared_subscriptions.remove(filter);
+                                }
+                            }
 
                             if let Some(broker_aliases) = connection.broker_topic_aliases.as_mut() {
                                 broker_aliases.remove_alias(filter);
